@@ -489,6 +489,27 @@ class BuiltinsMixin:
             hi = models.clamp_slice(self.as_int(args[2]), n) \
                 if len(args) > 2 else n
             sub = z3.SubString(s, lo, z3.If(hi > lo, hi - lo, 0))
+            if name == "rfind" and getattr(self.uni, "rfind_uf", False):
+                # rfind as a function of its (clamped) arguments with its
+                # defining facts instantiated at each call: found => the key
+                # sits at r inside the window; not found => the window does
+                # not contain the key.  (Right-most-ness is not stated.)
+                f = self.uni.uf("str_rfind", ["str", "str", "int", "int"],
+                                "int")
+                r = f(s, key, lo, hi)
+                kl = z3.Length(key)
+                st.assume(z3.Or(
+                    z3.And(r == -1, z3.Or(lo > hi,
+                                          z3.Not(z3.Contains(sub, key)))),
+                    z3.And(lo <= r, r + kl <= hi,
+                           z3.SubString(s, r, kl) == key)))
+                self.uni.note_assumption(
+                    "str.rfind(key, lo, hi) is an uninterpreted function of "
+                    "its clamped arguments with the facts: -1 iff the key "
+                    "does not occur in the window, else the key occurs at "
+                    "the returned index inside the window (right-most-ness "
+                    "not used)")
+                return VInt(r)
             pos = z3.LastIndexOf(sub, key) if name == "rfind" else \
                 z3.IndexOf(sub, key, 0)
             # python: empty window and non-empty key -> -1 ; start > len -> -1
@@ -525,19 +546,35 @@ class BuiltinsMixin:
             "join_prefix(L,0)='' , join_prefix(L,k+1)=join_prefix(L,k)+L[k]+"
             "sep, join_prefix(L,len)=s+sep)")
         lst = self.alloc(st, "list", "str", "split")
-        arr = fresh("split_items", z3.ArraySort(INT, STR))
-        n = fresh("split_len", INT)
+        light = getattr(self.uni, "split_light", False)
+        if light:
+            # contents are a function of (s, sep): two evaluations of the
+            # same split denote the same sequence
+            arr = self.uni.uf("split_items", ["str", "str"],
+                              "arr[str]")(recv.e, sep.e)
+            n = self.uni.uf("split_len", ["str", "str"], "int")(recv.e, sep.e)
+        else:
+            arr = fresh("split_items", z3.ArraySort(INT, STR))
+            n = fresh("split_len", INT)
         st.assume(n >= 1)
         self.set_list(lst, st, arr, n)
         i = z3.Int(fresh_name("i"))
-        st.assume(z3.ForAll([i], z3.Implies(
-            z3.And(0 <= i, i < n), z3.Not(z3.Contains(arr[i], sep.e))),
-            patterns=[arr[i]]))
+        if not light:
+            st.assume(z3.ForAll([i], z3.Implies(
+                z3.And(0 <= i, i < n), z3.Not(z3.Contains(arr[i], sep.e))),
+                patterns=[arr[i]]))
         if sep.e.eq(z3.StringVal("\n")) and "nonl" in self.uni.ufs:
             nonl = self.uni.ufs["nonl"]
             st.assume(z3.ForAll([i], z3.Implies(z3.And(0 <= i, i < n),
                                                 nonl(arr[i])),
                                 patterns=[arr[i]]))
+        if light:
+            # the recursion of join_prefix is instantiated by the property's
+            # own spec hook at the indices that occur
+            jp = self.uni.uf("join_prefix_a", ["arr[str]", "int"], "str")
+            st.assume(jp(arr, 0) == z3.StringVal(""))
+            st.assume(jp(arr, n) == z3.Concat(recv.e, sep.e))
+            return lst
         jp = self.uni.uf("join_prefix", ["ref", "int"], "str")
         st.assume(jp(lst.e, 0) == z3.StringVal(""))
         st.assume(z3.ForAll([i], z3.Implies(
